@@ -696,7 +696,22 @@ func main() {
 		{Tag: "main", Seed: r.SubSeed("world-main"), Blocks: 30, Wallets: true, Pool: true},
 		{Tag: "genesis", Seed: r.SubSeed("world-genesis"), Blocks: 0, Wallets: true, Pool: true},
 	} {
-		w, err := apifix.BuildWorld(wc)
+		// the data directories are prepared by calling the visor and the wallet service in this process: a
+		// change that makes those calls hang must not hang the check (no request was sent: inconclusive)
+		type built struct {
+			w   *apifix.World
+			err error
+		}
+		bc := make(chan built, 1)
+		go func(wc apifix.WorldConfig) { w, err := apifix.BuildWorld(wc); bc <- built{w, err} }(wc)
+		var w *apifix.World
+		var err error
+		select {
+		case b := <-bc:
+			w, err = b.w, b.err
+		case <-time.After(10 * time.Minute):
+			err = fmt.Errorf("the in-process visor / wallet calls that prepare the data directory did not return within 10 minutes")
+		}
 		if err != nil {
 			cleanup()
 			r.Inconclusive("world " + wc.Tag + ": " + err.Error())
